@@ -201,12 +201,19 @@ def check_c09(run: Run, prog: Program) -> None:
     run.clause = (
         "decides the kind-dispatch clauses of dist: (E9.1) the reduction over all ordered pairs of concrete kinds terminates, "
         "(E9.3) every pair C09 documents reaches a base formula in both argument orders, (E9.5) the == short-cut cannot fire "
-        "across kinds. NOT decided: the values of the formulas, branch cuts "
+        "across kinds; and the homogeneity clause (E5.ret): the bracket formula of the point distance and the value returned by angle "
+        "have degree 0 in the raw coordinates of every argument. NOT decided: the values of the formulas, branch cuts "
         "of log/sqrt, isometry invariance."
     )
     fn = prog.func("dist")
     n = dispatch.analyse(run, prog, fn, C09_DOCUMENTED)
     run.floor("ordered kind pairs evaluated", n, 100)
+    from geolint import homog
+
+    # homogeneity clause: the base formula of dist and the value of angle have degree 0 in every argument
+    names = {"_point_dist", "angle", "dist"}
+    n2 = homog.add_returns(run, prog, lambda f: f.cls is None and f.name in names, extra_names=names)
+    run.floor("return paths of the distance/angle formulas", n2, 3)
 
 
 # ================================================================================================ C18
@@ -400,3 +407,53 @@ def INFO_OR_VIOL(run: Run) -> str:
     from geolint.report import INFO
 
     return INFO
+
+
+# ================================================================================================ C03 / C17 / C09(ii)
+@prop("C03")
+def check_c03(run: Run, prog: Program) -> None:
+    from geolint import homog
+
+    run.title = "Results depend on the projective object, not on its homogeneous representative"
+    run.clause = (
+        "decides, for real non-zero scale factors and finite polytope vertices, that every sign/order decision, every equality test, "
+        "every numeric return of a metric/measure function and every point construction in the package is a function of degree-0 (or "
+        "even/absolute-degree, zero-threshold) quantities of each argument's raw coordinates - a dimensional-analysis type system over all "
+        "paths; and that == of every projective class goes through the scalar-multiple test. NOT decided: magnitude effects of the absolute "
+        "tolerances, results that go through basis_matrix/null_space of raw data, is_multiple itself, complex scale factors. Package "
+        "primitives (join, meet, project, base_point, ...) are assumed to return some representative of a well-defined object."
+    )
+    run.trusted += ["homogeneity algebra of geolint/hv.py", "primitive table: join/meet/... return a representative of a representative-independent object"]
+    n1 = homog.add_sinks(run, prog, {"E5.order", "E5.eq", "E5.object"})
+    n2 = homog.add_returns(run, prog, lambda f: True, extra_names={"crossratio", "_point_dist"})
+    n3 = homog.rule_eq_dunder(run, prog)
+    run.floor("comparison / construction sinks on coordinate data", n1, 40)
+    run.floor("numeric return paths", n2, 10)
+    run.floor("__eq__ resolutions", n3, 15)
+    run.stats.update({"sinks": n1, "numeric_returns": n2, "eq_resolutions": n3})
+    for name in ("PolygonTensor.contains", "Triangle.contains", "SegmentTensor.contains"):
+        prog.func(name)
+
+
+@prop("C17")
+def check_c17(run: Run, prog: Program) -> None:
+    from geolint import homog
+
+    run.title = "Polytope measures equal closed forms; polytope equality ignores vertex order"
+    run.clause = (
+        "decides two necessary conditions for the invariance clauses: every measure returned by a polytope class (area, volume, length, "
+        "radius, inradius, angles, ...) is computed from dehomogenised (degree-0) coordinates, and every point-valued statistic built "
+        "from vertex coordinates (center, centroid) is an affine combination (total weight 1) - otherwise it is not equivariant under "
+        "translations. NOT decided: the formulas themselves; the roll/flip logic of __eq__; constructive results (midpoint, circumcenter)."
+    )
+    poly = prog.cls("PolytopeTensor")
+
+    def in_poly(f) -> bool:
+        return f.cls is not None and prog.is_subclass(f.cls, poly)
+
+    poly_names = {c.name for c in prog.subclasses(poly)}
+    n1 = homog.add_sinks(run, prog, {"E5.affine"}, only_fn=lambda s: s.split(".")[0] in poly_names)
+    n2 = homog.add_returns(run, prog, in_poly)
+    run.floor("measure return paths", n2, 5)
+    run.floor("point-valued vertex statistics", n1, 1)
+    run.stats.update({"affine_sinks": n1, "measure_returns": n2})
